@@ -10,6 +10,9 @@ Local Open Scope nat_scope.
 Definition exec_stub (m : hostmsg) : list retmsg :=
   match m with HSub b => [RReg 23%N (N.of_nat (length b))] | _ => [] end.
 
+(* run-length literal for long byte strings written by the harness *)
+Definition rle (l : list (N * N)) : bytes := flat_map (fun p => repeat (fst p) (N.to_nat (snd p))) l.
+
 Definition opt_eqb {A} (e : A -> A -> bool) (a b : option A) : bool :=
   match a, b with Some x, Some y => e x y | None, None => true | _, _ => false end.
 
